@@ -94,6 +94,8 @@ def check(names, o):
 HELPERS = [
     ("subtract", (3,), 10, 7), ("divide_by", (2,), 10, 5.0), ("divide_into", (20,), 10, 2.0), ("left_multiply", ("ab",), 2, "abab"),
     ("modulo", (3,), 10, 1), ("get", ("k", 0), {"k": 5}, 5), ("contains", (2,), [1, 2], True), ("is_in", ([1, 2],), 2, True), ("merge", ({"a": 2},), {"a": 1, "b": 1}, {"a": 2, "b": 1}),
+    ("le", ({3},), {1, 2}, False), ("ge", ({3},), {1, 2}, False), ("lt", ({3},), {1, 2}, False), ("gt", ({3},), {1, 2}, False), ("le", ({1, 2, 3},), {1, 2}, True),
+    ("ge", ({1},), {1, 2}, True), ("le", (float("nan"),), 1.0, False), ("ge", (float("nan"),), 1.0, False),
     ("has_remainder", (3, 1), 10, True), ("gt", (3,), 10, True), ("lt", (3,), 10, False), ("ge", (10,), 10, True), ("le", (3,), 10, False),
 ]
 
